@@ -1,3 +1,4 @@
+import SieveModel.Generated.LexRules
 import SieveModel.Model.Lexer
 import SieveModel.Model.Machine
 import SieveModel.Lemmas.Comments
@@ -65,5 +66,10 @@ example : Readback.nameDescL (sb "# Filter: ") (sb "# Description: ") [sb "# Fil
     = (sb "spam rule", sb "drop it") := by decide
 example : Readback.nameDescL (sb "# Filter: ") (sb "# Description: ") [sb "# Filter: a # Filter: b"] (sb "Unnamed rule 1", [])
     = (sb "a b", []) := by decide
+
+/-- the lexer rules of `sievelib/parser.py` (names, order, patterns, flags, white space) are the modelled ones -/
+theorem lexer_is_the_modelled_one :
+    Generated.lexRuleNames = TokKind.all.map TokKind.name ∧ Generated.lexRulePatterns = TokKind.patterns ∧
+      Generated.parserPatterns = TokKind.auxPatterns := by decide
 
 end C11
